@@ -174,9 +174,39 @@ def sequence_case(ctx, rng):
     rows = [[{'k': i, 'v': 'x%d' % i} for i in range(n)], [{'k': -1, 'v': 'other'}]]
     desc = canon.make_descriptor([{'name': 'orig', 'fields': [('k', 'integer'), ('v', 'string')]},
                                   {'name': 'other', 'fields': [('k', 'integer'), ('v', 'string')]}])
-    kind = rng.choice(['dup-then-delete-original', 'dup-then-delete-copy', 'dup-then-concat', 'concat-then-dup'])
+    kind = rng.choice(['dup-then-delete-original', 'dup-then-delete-copy', 'dup-then-concat', 'concat-then-dup',
+                       'dup-then-edit-copy', 'dup-then-edit-original'])
     to_end = rng.random() < 0.5
     bs = rng.choice([1, 7, 1000])
+    if kind.startswith('dup-then-edit'):
+        # the copy and the original are independent afterwards: editing one leaves the other as it was
+        edited, kept = ('copy', 'orig') if kind.endswith('copy') else ('orig', 'copy')
+        edit = rng.choice(['delete_fields', 'add_field', 'set_type', 'rename_fields', 'update_schema', 'set_primary_key'])
+        step2 = {'delete_fields': lambda: DF.delete_fields(['v'], resources=edited),
+                 'add_field': lambda: DF.add_field('c', 'integer', 1, resources=edited),
+                 'set_type': lambda: DF.set_type('k', type='number', resources=edited),
+                 'rename_fields': lambda: DF.rename_fields({'v': 'w'}, resources=edited),
+                 'update_schema': lambda: DF.update_schema(edited, missingValues=['', 'x']),
+                 'set_primary_key': lambda: DF.set_primary_key(['k'], resources=edited)}[edit]
+        steps = [DF.duplicate(source='orig', target_name='copy', batch_size=bs, duplicate_to_end=to_end), step2()]
+        case = {'sequence': kind, 'edit': edit, 'n': n, 'duplicate_to_end': to_end, 'batch_size': bs}
+        real = S.run_real(steps, desc, rows)
+        rep.case('real:sequence:' + kind, case, nontrivial=n > 0)
+        if 'ok' not in real:
+            rep.fail('sequence:%s:unexpected-error' % kind, case, real)
+            return
+        ref = canon.norm_pkg(canon.enc_pkg(desc, rows))[0]
+        got = [r for r in canon.norm_pkg(real['ok']) if r['name'] == kept]
+        if len(got) != 1:
+            rep.fail('sequence:%s:resource-missing' % kind, case, [r['name'] for r in real['ok']])
+            return
+        for key in ('fields', 'pk', 'rows', 'props'):
+            if got[0].get(key) != ref.get(key) and not (key == 'props'):
+                rep.fail('sequence:%s:%s:other-of-the-pair-changed:%s' % (kind, edit, key), case,
+                         {'expected': ref.get(key) if key != 'rows' else len(ref['rows']),
+                          'got': got[0].get(key) if key != 'rows' else got[0]['rows'][:3]})
+                return
+        return
     if kind == 'dup-then-delete-original':
         steps = [DF.duplicate(source='orig', target_name='copy', batch_size=bs, duplicate_to_end=to_end), DF.delete_resource('orig')]
         want = [('other', rows[1]), ('copy', rows[0])] if to_end else [('copy', rows[0]), ('other', rows[1])]
